@@ -1,7 +1,7 @@
 /-
   Driver for the xml:id index (C04): extra requests of the `forest` session.
 
-    forest parse <tree wire>        `Xot::parse` of a text whose tree is the given one, into the
+    forest parse <tree wire>        (also `parse_fragment`) `Xot::parse` of a text whose tree is the given one, into the
                                     session's store  -> ok <label of the document node> | err:DuplicateId
     forest xml_id <label> <value>   `xml_id_node(document, value)`  -> <label> | none
 
@@ -16,7 +16,7 @@ abbrev IdIndex := List ((Nat × Str) × Nat)
 
 def handleFidx (s : FState) (idx : IdIndex) (ws : List String) : Option (FState × IdIndex × String) :=
   match ws with
-  | "parse" :: rest =>
+  | "parse" :: rest | "parse_fragment" :: rest =>
     match parseTree rest with
     | some (t, []) =>
       match IdStore.parse { forest := s.forest, index := idx } t with
